@@ -353,6 +353,15 @@ fn enum_tostr(shard: usize, nshards: usize, tier: Tier, emit: &mut dyn FnMut(&[u
                             return;
                         }
                     }
+                    // the same low word under a non-zero high word (truncating lookups)
+                    if matches!(h, Helper::I64(..)) && *v >= 0 && *v <= u32::MAX as i128 {
+                        for hw in [1i128 << 32, 2i128 << 32, 0x7fff_ffffi128 << 32, -(1i128 << 32), -(1i128 << 63)] {
+                            n += 1;
+                            if n % nshards == shard && !emit_tostr(hi, (*v + hw) as i64 as i128, emit) {
+                                return;
+                            }
+                        }
+                    }
                 }
                 // pseudo-random arguments (a pure function of the index)
                 let count = if tier == Tier::Quick { 200_000u64 } else { 10_000_000 };
@@ -376,6 +385,60 @@ fn enum_tostr(shard: usize, nshards: usize, tier: Tier, emit: &mut dyn FnMut(&[u
     }
 }
 
+/// Exhaustive sweep of the whole u32 domain of every u32 helper (4 x 2^32 calls, a few seconds): any Some(s)
+/// must be an exported identifier with that value.
+fn u32_sweep(_tier: Tier, _seed: u64) -> verif_model::run::ExtraOutcome {
+    let consts = crate_consts();
+    let hs = helpers();
+    let mut somes = 0u64;
+    let mut failure = None;
+    let mut samples = vec![];
+    let mut calls = 0u64;
+    for (hi, (name, h)) in hs.iter().enumerate() {
+        let Helper::U32(f, _) = h else { continue };
+        let sym = symbolic(hi);
+        let nthreads = std::thread::available_parallelism().map(|n| n.get()).unwrap_or(4).min(16) as u64;
+        let found: Vec<(u32, &'static str)> = std::thread::scope(|sc| {
+            let hs: Vec<_> = (0..nthreads)
+                .map(|t| {
+                    sc.spawn(move || {
+                        let mut v = vec![];
+                        let lo = (t * (1u64 << 32) / nthreads) as u64;
+                        let hi2 = ((t + 1) * (1u64 << 32) / nthreads) as u64;
+                        for x in lo..hi2 {
+                            if let Some(s) = f(x as u32) {
+                                v.push((x as u32, s));
+                            }
+                        }
+                        v
+                    })
+                })
+                .collect();
+            hs.into_iter().flat_map(|h| h.join().unwrap_or_default()).collect()
+        });
+        calls += 1u64 << 32;
+        somes += found.len() as u64;
+        if samples.len() < 4 {
+            samples.push(json!({"helper": name, "some_answers_over_2^32_arguments": found.len(), "first": found.first().map(|(v, s)| format!("{:#x} -> {}", v, s))}));
+        }
+        if sym && failure.is_none() {
+            for (v, st) in &found {
+                let ok = consts.get(st).map(|cv| *cv == *v as i128).unwrap_or(false);
+                if !ok && !verif_model::run::is_open_finding(&format!("c19.to_str:{}:{}", name, v)) {
+                    let mut case = name.as_bytes().to_vec();
+                    case.push(0);
+                    case.extend_from_slice(&(*v as i128).to_le_bytes());
+                    let msg = format!("{}_to_str({:#x}) = {:?}, which is not the identifier of an exported constant with that value", name, v, st);
+                    let rf = verif_model::run::write_case_file(&verif_model::run::verif_root().join("out/C19"), "C19", "to_str", &case, &msg, None);
+                    failure = Some((msg, json!({"replay_file": rf.to_string_lossy()})));
+                    break;
+                }
+            }
+        }
+    }
+    verif_model::run::ExtraOutcome { name: "to_str_u32_exhaustive", evaluations: calls, nontrivial: somes, samples, detail: json!({"domain": "every u32 argument of every u32 to_str helper", "some_answers": somes}), failure, inconclusive: None }
+}
+
 pub fn property() -> Property {
     Property {
         id: "C19",
@@ -388,6 +451,6 @@ pub fn property() -> Property {
             Sub::enumerated("layout", oracle_layout, enum_layout, true),
             Sub::enumerated("to_str", oracle_tostr, enum_tostr, false),
         ],
-        extras: vec![],
+        extras: vec![u32_sweep],
     }
 }
